@@ -197,6 +197,20 @@ var placements = []placement{
 		return map[string]*config.V2SamplerChoice{"prod": rulesWith(a), "staging": rulesWith(b)},
 			func(f *sample.SamplerFactory) (sample.Sampler, sample.Sampler) { return down(f, "prod", 0), down(f, "staging", 0) }
 	}},
+	// environments that have no entry of their own and share the __default__ definition (one configuration object
+	// reached under two destination names): still two environments
+	{"two-environments-falling-back-to-default", false, func(a, b any) (map[string]*config.V2SamplerChoice, func(*sample.SamplerFactory) (sample.Sampler, sample.Sampler)) {
+		return map[string]*config.V2SamplerChoice{"__default__": topLevel(a), "other": topLevel(b)},
+			func(f *sample.SamplerFactory) (sample.Sampler, sample.Sampler) { return get(f, "alpha"), get(f, "beta") }
+	}},
+	{"downstream-rules-of-two-environments-falling-back-to-default", false, func(a, b any) (map[string]*config.V2SamplerChoice, func(*sample.SamplerFactory) (sample.Sampler, sample.Sampler)) {
+		return map[string]*config.V2SamplerChoice{"__default__": rulesWith(a), "other": topLevel(b)},
+			func(f *sample.SamplerFactory) (sample.Sampler, sample.Sampler) { return down(f, "alpha", 0), down(f, "beta", 0) }
+	}},
+	{"environment-with-own-entry-vs-environment-falling-back-to-default", false, func(a, b any) (map[string]*config.V2SamplerChoice, func(*sample.SamplerFactory) (sample.Sampler, sample.Sampler)) {
+		return map[string]*config.V2SamplerChoice{"__default__": topLevel(a), "prod": topLevel(b)},
+			func(f *sample.SamplerFactory) (sample.Sampler, sample.Sampler) { return get(f, "alpha"), get(f, "prod") }
+	}},
 	{"two-downstream-rules-of-one-environment", true, func(a, b any) (map[string]*config.V2SamplerChoice, func(*sample.SamplerFactory) (sample.Sampler, sample.Sampler)) {
 		return map[string]*config.V2SamplerChoice{"prod": rulesWith(a, b)},
 			func(f *sample.SamplerFactory) (sample.Sampler, sample.Sampler) {
@@ -207,7 +221,9 @@ var placements = []placement{
 }
 
 func newFactory(rules map[string]*config.V2SamplerChoice) *sample.SamplerFactory {
-	rules["__default__"] = &config.V2SamplerChoice{DeterministicSampler: &config.DeterministicSamplerConfig{SampleRate: 1}}
+	if rules["__default__"] == nil {
+		rules["__default__"] = &config.V2SamplerChoice{DeterministicSampler: &config.DeterministicSamplerConfig{SampleRate: 1}}
+	}
 	f := &sample.SamplerFactory{Config: &config.MockConfig{Samplers: rules}, Logger: &logger.NullLogger{}, Metrics: &metrics.NullMetrics{},
 		Peers: sample.VerifMockPeers([]string{"http://p0:8081", "http://p1:8081"}, "http://p0:8081")}
 	if err := f.Start(); err != nil {
